@@ -135,18 +135,18 @@ def all_families(plan, own=()):
     """Monitors are evaluated on every trace, and a change that breaks property P often needs the world of another
     family to manifest (a fault, a stale cache, a finalize hook, a rollout ...): every sync-level check therefore
     also replays a seed-chosen slice of every other family."""
-    import fam_own, fam_conv, fam_fin, fam_faults, fam_dec, fam_status, fam_roll, fam_rollfin, fam_requeue
+    import fam_own, fam_conv, fam_fin, fam_faults, fam_dec, fam_status, fam_roll, fam_rollfin, fam_requeue, fam_multikind
     extra = {
         "quick": [("MC_Own", "Beh_Own_q.cfg", fam_own.convert, 250), ("MC_Conv", "Beh_Conv_t.cfg", fam_conv.convert, 300),
                   ("MC_Fin", "Beh_Fin_t.cfg", fam_fin.convert, 200), ("MC_Faults", "Beh_Faults_q.cfg", fam_faults.convert, 0),
                   ("MC_Dec", "Beh_Dec_q.cfg", fam_dec.convert, 150), ("MC_Status", "Beh_Status_q.cfg", fam_status.convert, 100),
                   ("MC_Rolling", "Beh_Rolling_q.cfg", fam_roll.convert, 40), ("RollFin", "Beh_RollFin.cfg", fam_rollfin.convert, 0),
-                  ("MC_Requeue", "Beh_Requeue.cfg", fam_requeue.convert, 60)],
+                  ("MC_Requeue", "Beh_Requeue.cfg", fam_requeue.convert, 60), ("MC_MultiKind", "Beh_MultiKind.cfg", fam_multikind.convert, 60)],
         "thorough": [("MC_Own", "Beh_Own_t.cfg", fam_own.convert, 3000), ("MC_Conv", "Beh_Conv_t.cfg", fam_conv.convert, 3000),
                      ("MC_Fin", "Beh_Fin_t6.cfg", fam_fin.convert, 2000), ("MC_Faults", "Beh_Faults_q.cfg", fam_faults.convert, 0),
                      ("MC_Dec", "Beh_Dec_t.cfg", fam_dec.convert, 2000), ("MC_Status", "Beh_Status_t.cfg", fam_status.convert, 1000),
                      ("MC_Rolling", "Beh_Rolling_q.cfg", fam_roll.convert, 300), ("RollFin", "Beh_RollFin.cfg", fam_rollfin.convert, 0),
-                     ("MC_Requeue", "Beh_Requeue.cfg", fam_requeue.convert, 0)],
+                     ("MC_Requeue", "Beh_Requeue.cfg", fam_requeue.convert, 0), ("MC_MultiKind", "Beh_MultiKind.cfg", fam_multikind.convert, 0)],
     }
     out = dict(plan)
     out["pkgs"] = {"composite": COMPOSITE, "decorator": DECORATOR}
@@ -215,6 +215,16 @@ def sync_level(scr, tier, prop, prefix, plan, replay_file=None):
     total, nt = nontrivial_scenarios(traces)
     evs = list(events_of(traces))
     ndrift, drift_ex = plan["drift"]([s for s in scenarios if s.get("fam") == plan.get("drift_fam", s.get("fam"))], evs) if plan.get("drift") else (0, [])
+    # families mixed into every check bring their own model-vs-code comparison
+    import fam_multikind, fam_requeue
+    for famname, fn in (("multikind", fam_multikind.drift), ("requeue", fam_requeue.drift)):
+        if plan.get("drift") is fn:
+            continue
+        part = [s for s in scenarios if s.get("fam") == famname]
+        if part:
+            n2, ex2 = fn(part, evs)
+            ndrift += n2
+            drift_ex = list(drift_ex) + list(ex2)
     by_id = {s["id"]: s for s in scenarios}
     all_events = evs
 
